@@ -77,7 +77,7 @@ theorem world_reset_keeps_cache_id_pool : type_of% @Ark.Props.C16World.reset_kee
 
 theorem world_reset_keeps_observer_id_pool : type_of% @Ark.Props.C16World.reset_keeps_observer_id_pool := @Ark.Props.C16World.reset_keeps_observer_id_pool
 
-theorem world_reset_keeps_id_of_failed_register : type_of% @Ark.Props.C16World.reset_keeps_id_of_failed_register := @Ark.Props.C16World.reset_keeps_id_of_failed_register
+theorem world_failed_register_keeps_no_id : type_of% @Ark.Props.C16World.failed_register_keeps_no_id := @Ark.Props.C16World.failed_register_keeps_no_id
 
 
 end Ark.Props.C16
